@@ -23,8 +23,28 @@ struct Side {
     handler: Arc<Mutex<Vec<Failure>>>,
 }
 
+/// Answers of an unreliable sink, the same for the global client and its twin.
+const ALTERNATING: [Option<std::io::ErrorKind>; 7] = [
+    Some(std::io::ErrorKind::BrokenPipe),
+    None,
+    Some(std::io::ErrorKind::Interrupted),
+    Some(std::io::ErrorKind::WouldBlock),
+    None,
+    None,
+    Some(std::io::ErrorKind::Other),
+];
+
 fn build(cfg: &ClientCfg, failing: bool, with_handler: bool) -> (StatsdClient, RecSink, Arc<Mutex<Vec<Failure>>>) {
     let sink = RecSink::default();
+    if cfg.prefix == "alt" {
+        let mut s = sink.0.lock().unwrap();
+        for i in 0..2_000 {
+            s.script.push_back(match ALTERNATING[i % ALTERNATING.len()] {
+                Some(k) => api::Answer::Refuse(k),
+                None => api::Answer::Accept,
+            });
+        }
+    }
     if failing {
         // refuse everything
         let mut s = sink.0.lock().unwrap();
@@ -134,7 +154,13 @@ impl Ctx {
                 } else if let Err(why) = reffmt::matches(&g_emits[0], &pieces) {
                     self.bad(&["C17", "C01", "C04"], "line-differs", format!("{} emitted {:?}: {}", what, g_emits[0], why));
                 }
-                if self.failing {
+                if self.cfg.prefix == "alt" {
+                    // outcomes alternate: the comparison with the twin (same answers) decides
+                    self.rep.flag("unreliable-sink");
+                    if g_handled.len() > 1 {
+                        self.bad(&["C17", "C03"], "handler-count", format!("{}: the handler ran {} times for one metric", what, g_handled.len()));
+                    }
+                } else if self.failing {
                     self.rep.flag("failing-sink");
                     if self.with_handler && g_handled.len() != 1 {
                         self.bad(&["C17", "C03"], "handler-count", format!("{}: the sink refused the metric; the handler ran {} times", what, g_handled.len()));
@@ -313,6 +339,10 @@ pub fn run_child(spec: &crate::Spec) -> Report {
         "E" => (ClientCfg { prefix: "p".into(), ..Default::default() }, true, false, true, false),
         "F" => (ClientCfg { prefix: "one".into(), ..Default::default() }, false, true, true, true),
         "G" => (ClientCfg { prefix: "late".into(), ..Default::default() }, false, true, true, false),
+        // an unreliable sink: some metrics are refused (with different errors), others accepted
+        "H" => (ClientCfg { prefix: "alt".into(), tags: vec![(None, "".into())], container: None }, false, true, true, false),
+        // another thread uses the macros before the client is set and again afterwards
+        "T" => (ClientCfg { prefix: "thr".into(), ..Default::default() }, false, true, true, false),
         _ => (ClientCfg::default(), false, true, false, false),
     };
     let (gc, gs, gh) = build(&cfg, failing, with_handler);
@@ -337,6 +367,44 @@ pub fn run_child(spec: &crate::Spec) -> Report {
                 early_panics += 1;
             }
         }
+    }
+    // configuration T: a second thread uses the macros before the client is set (they panic there),
+    // stays alive, and uses them again once the main thread has set the client
+    let mut early_thread = None;
+    if name == "T" {
+        let (to_thread, from_main) = std::sync::mpsc::channel::<()>();
+        let (to_main, from_thread) = std::sync::mpsc::channel::<usize>();
+        let h = std::thread::spawn(move || {
+            let mut panics = 0;
+            for _ in 0..2 {
+                if panic::catch_unwind(|| {
+                    cadence_macros::statsd_count!("early.thread", 1i64);
+                })
+                .is_err()
+                {
+                    panics += 1;
+                }
+                if panic::catch_unwind(|| {
+                    cadence_macros::statsd_time!("early.thread", 3u64, "a" => "b");
+                })
+                .is_err()
+                {
+                    panics += 1;
+                }
+            }
+            let unset_seen = !cadence_macros::is_global_default_set() && cadence_macros::get_global_default().is_err();
+            to_main.send(panics + if unset_seen { 100 } else { 0 }).unwrap();
+            from_main.recv().unwrap();
+            // the client is set now
+            let after = panic::catch_unwind(|| {
+                cadence_macros::statsd_count!("late.thread", 2i64);
+                cadence_macros::statsd_gauge!("late.thread.g", 4u64, "a" => "b");
+            });
+            let set_seen = cadence_macros::is_global_default_set() && cadence_macros::get_global_default().is_ok();
+            to_main.send(if after.is_ok() { 1 } else { 0 } + if set_seen { 100 } else { 0 }).unwrap();
+        });
+        let first = from_thread.recv().unwrap();
+        early_thread = Some((h, to_thread, from_thread, first));
     }
     if set {
         if cadence_macros::is_global_default_set() {
@@ -377,6 +445,23 @@ pub fn run_child(spec: &crate::Spec) -> Report {
     let _ = &ctx.global.client;
     if set != cadence_macros::is_global_default_set() {
         ctx.bad(&["C17", "C18"], "is-set-wrong", format!("is_global_default_set() = {} after {} set calls", !set, if set { "one or two" } else { "no" }));
+    }
+    if let Some((h, to_thread, from_thread, first)) = early_thread {
+        ctx.rep.flag("macros-used-on-another-thread-before-set");
+        ctx.rep.evaluations += 2;
+        if first != 104 {
+            ctx.bad(&["C17", "C18"], "no-panic-when-unset", format!("on a second thread, before any client was set: {} of 4 macro calls panicked, 'not set' reported: {}", first % 100, first >= 100));
+        }
+        let g0 = ctx.global.sink.0.lock().unwrap().emits.len();
+        to_thread.send(()).unwrap();
+        let second = from_thread.recv().unwrap_or(0);
+        let _ = h.join();
+        let emits: Vec<String> = ctx.global.sink.0.lock().unwrap().emits[g0..].to_vec();
+        if second != 101 {
+            ctx.bad(&["C17", "C18"], "panic-when-set", format!("a thread that had used the macros before the client was set used them again afterwards: completed without panic: {}, client reported as set: {}", second % 100 == 1, second >= 100));
+        } else if emits != vec!["thr.late.thread:2|c".to_string(), "thr.late.thread.g:4|g|#a:b".to_string()] {
+            ctx.bad(&["C17"], "macro-differs-from-explicit-call", format!("macros used on a second thread after the client was set handed the sink {:?}", emits));
+        }
     }
     if name == "G" {
         ctx.rep.flag("macros-used-before-set");
